@@ -69,13 +69,13 @@ def board_facts(b):
     return res
 
 
-def ref_client(seat, team, scenario, net, log, fault=None, state=None):
+def ref_client(seat, team, scenario, net, log, fault=None, state=None, sock=None, addr=None):
     """A conforming protocol client following the scenario's script (independent of the bundled Client).
     fault: None or {'board': k, 'phase': 'auction'|'play', 'pos': j, 'seat': s, 'text': str} - the offending
     message replaces the scripted one; afterwards the client only reads until the server hangs up."""
     fmt = Fmt(scenario.get('fmt', {}))
-    sock = O.SimSocket(net)
-    sock.connect(ADDR)
+    sock = sock if sock is not None else O.SimSocket(net)
+    sock.connect(addr or ADDR)
     c = LineConn(sock, log)
     me = PR.FORMAL[seat]
     state = state if state is not None else {}
